@@ -285,6 +285,9 @@ pub struct EncOpts {
 	pub leaf_levels: u8,
 	pub leaf_size: usize,
 	pub no_meta: bool,
+	/// order of the metadata / leaf directories / tile data sections after the root directory, with padding between them
+	pub section_order: [u8; 3],
+	pub padding: bool,
 }
 
 impl EncOpts {
@@ -297,6 +300,8 @@ impl EncOpts {
 			leaf_levels: if n_tiles < 3 { 0 } else { rng.below(3) as u8 },
 			leaf_size: rng.range(1, 40) as usize,
 			no_meta: rng.chance(0.2),
+			section_order: *rng.pick(&[[0u8, 1, 2], [0, 1, 2], [2, 1, 0], [1, 2, 0], [2, 0, 1], [0, 2, 1], [1, 0, 2]]),
+			padding: rng.chance(0.3),
 		}
 	}
 }
@@ -357,10 +362,21 @@ pub fn encode(ts: &TileSet, o: &EncOpts, rng: &mut Rng) -> Vec<u8> {
 	let root = comp::compress(&ser_dir(&level_entries), o.internal);
 	let meta = if o.no_meta { comp::compress(b"{}", o.internal) } else { comp::compress(ts.tilejson.as_bytes(), o.internal) };
 
+	// the root directory follows the header (it has to lie in the first 16 KiB); the other sections in any order
 	let root_off = 127u64;
-	let meta_off = root_off + root.len() as u64;
-	let leaves_off = meta_off + meta.len() as u64;
-	let data_off = leaves_off + leaves.len() as u64;
+	let mut cursor = root_off + root.len() as u64;
+	let mut offs = [0u64; 3];
+	let lens = [meta.len() as u64, leaves.len() as u64, data.len() as u64];
+	let mut layout: Vec<(u8, u64)> = vec![];
+	for sec in o.section_order {
+		if o.padding {
+			cursor += 1 + (cursor * 7 + sec as u64) % 61;
+		}
+		offs[sec as usize] = cursor;
+		layout.push((sec, cursor));
+		cursor += lens[sec as usize];
+	}
+	let (meta_off, leaves_off, data_off) = (offs[0], offs[1], offs[2]);
 
 	let b = super::ivt::geo_bounds(ts);
 	let levels = ts.levels();
@@ -385,9 +401,16 @@ pub fn encode(ts: &TileSet, o: &EncOpts, rng: &mut Rng) -> Vec<u8> {
 	assert_eq!(h.len(), 127);
 	let mut out = h;
 	out.extend_from_slice(&root);
-	out.extend_from_slice(&meta);
-	out.extend_from_slice(&leaves);
-	out.extend_from_slice(&data);
+	for (sec, off) in layout {
+		while (out.len() as u64) < off {
+			out.push(0xAA);
+		}
+		match sec {
+			0 => out.extend_from_slice(&meta),
+			1 => out.extend_from_slice(&leaves),
+			_ => out.extend_from_slice(&data),
+		}
+	}
 	out
 }
 
